@@ -43,7 +43,7 @@ mutual
       unfold depthNots
       have h1 := two_depth_le c
       have h2 : (kw "NOT" ++ sp ++ critWire c).length ≤ B :=
-        h (kw "NOT" ++ sp ++ critWire c, fun x => .mk x.flat (x.nots.snoc (canonCrit c)) x.ors) (by simp [notItems])
+        h (kw "NOT" ++ sp ++ critWire c, fun x => .mk x.flat (x.nots.snoc (delivCrit c)) x.ors) (by simp [notItems])
       have h3 := depthNots_le t B (fun a ha => h a (by simp [notItems, ha]))
       simp only [List.length_append] at h2
       omega
@@ -54,7 +54,7 @@ mutual
       have h1 := two_depth_le a
       have h1' := two_depth_le b
       have h2 : (kw "OR" ++ sp ++ critWire a ++ sp ++ critWire b).length ≤ B :=
-        h (kw "OR" ++ sp ++ critWire a ++ sp ++ critWire b, fun x => .mk x.flat x.nots (x.ors.snoc (canonCrit a) (canonCrit b)))
+        h (kw "OR" ++ sp ++ critWire a ++ sp ++ critWire b, fun x => .mk x.flat x.nots (x.ors.snoc (delivCrit a) (delivCrit b)))
           (by simp [orItems])
       have h3 := depthOrs_le t B (fun x hx => h x (by simp [orItems, hx]))
       simp only [List.length_append] at h2
@@ -63,7 +63,7 @@ end
 
 /-- the criteria written by the client, read by the top-level loop of handleSearch -/
 theorem pSearchTop_crit (c : Crit) (hok : CritOK c) (hd : depth c < maxListDepth) (n : Nat) :
-    pSearchTop (n + 1) Crit.empty none (critWire c ++ crlf) = .ok (canonCrit c, crlf) := by
+    pSearchTop (n + 1) Crit.empty none (critWire c ++ crlf) = .ok (delivCrit c, crlf) := by
   have hlen : 2 * depth c ≤ (critWire c ++ crlf).length + 2 := by
     have := two_depth_le c
     simp only [List.length_append]
@@ -134,7 +134,7 @@ theorem notEol_afterOpts (cs : Bool) (c : Crit) (tail : Wire) : NotEol (afterOpt
   cases cs <;> simp [afterOpts, hr, NotEol, kw, str, atom]
 
 theorem pSearchRest_w (uid : Bool) (opts : SearchOpts) (cs : Bool) (c : Crit) (hok : CritOK c) (hd : depth c < maxListDepth) :
-    pSearchRest uid opts (afterOpts cs c ++ crlf) = .ok (.search uid (canonCrit c) (canonSearchOpts (some opts)), []) := by
+    pSearchRest uid opts (afterOpts cs c ++ crlf) = .ok (.search uid (delivCrit c) (canonSearchOpts (some opts)), []) := by
   obtain ⟨r, hr⟩ := critWire_cons c
   have htop := pSearchTop_crit c hok hd (critWire c ++ crlf).length
   cases cs with
@@ -159,87 +159,5 @@ theorem pSearchRest_w (uid : Bool) (opts : SearchOpts) (cs : Bool) (c : Crit) (h
     simp only [if_true, htop, pCRLF_crlf_nil]
     rfl
 
-
-theorem search_fidelity_aux (cfg : Cfg) (tag : Nat) (uid : Bool) (c : Crit) (o : Option SearchOpts) (os : SearchOpts) (cs : Bool)
-    (hok : CritOK c) (hd : depth c < maxListDepth)
-    (hw : wBody {} cfg (.search uid c o) =
-      .ok [[.fixed (uidName uid "SEARCH" ++ (if (rOpts os).map ROpt.wire = [] then [] else sp ++ kw "RETURN" ++ sp ++ [.b 40]))] ++
-           (if (rOpts os).map ROpt.wire = [] then [] else [.anyOrder ((rOpts os).map ROpt.wire), .fixed [.b 41]]) ++
-           [.fixed (sp ++ (if cs then kw "CHARSET UTF-8 " else []) ++ critWire c)]])
-    (hsem : sem cfg (.search uid c o) = [.search uid (canonCrit c) (canonSearchOpts (some os))]) :
-    roundTrip {} cfg tag (.search uid c o) = .calls (sem cfg (.search uid c o)) := by
-  unfold roundTrip
-  rw [printCmd_single _ _ _ _ _ hw]
-  by_cases hnil : rOpts os = []
-  · have hlin : linearise ([Seg.fixed ([.b 84] ++ atom (digits tag) ++ sp)] ++
-        ([Seg.fixed (uidName uid "SEARCH" ++ (if (rOpts os).map ROpt.wire = [] then [] else sp ++ kw "RETURN" ++ sp ++ [.b 40]))] ++
-         (if (rOpts os).map ROpt.wire = [] then [] else [.anyOrder ((rOpts os).map ROpt.wire), .fixed [.b 41]]) ++
-         [.fixed (sp ++ (if cs then kw "CHARSET UTF-8 " else []) ++ critWire c)]) ++ [Seg.fixed crlf]) =
-        tagW tag ++ (uidName uid "SEARCH" ++ (sp ++ (afterOpts cs c ++ crlf))) := by
-      simp [linearise, Seg.lin, tagW, hnil, afterOpts, List.append_assoc]
-    simp only [List.map_cons, List.map_nil, hlin, parseCmds, bind, Except.bind]
-    rw [parse_uidName cfg tag uid "SEARCH" _ (isName_kw "SEARCH") (by decide) (stops_sp_atom _), dispatch_search]
-    have hos : os = {} := by
-      have := foldl_rOpts os
-      rw [hnil] at this
-      exact this.symm
-    have hspan : span isSearchAtomChar (afterOpts cs c ++ crlf) = span isSearchAtomChar (afterOpts cs c ++ crlf) := rfl
-    have hnoret : ∀ a0 r1, span isSearchAtomChar (afterOpts cs c ++ crlf) = (a0, r1) → (a0 ≠ [] && upper a0 = str "RETURN") = false := by
-      intro a0 r1 h
-      obtain ⟨r, hr⟩ := critWire_cons c
-      cases hcs : cs with
-      | false =>
-        simp only [afterOpts, hcs, Bool.false_eq_true, if_false, List.nil_append, hr, List.cons_append] at h
-        rw [span_paren _ (by decide)] at h
-        cases h; simp
-      | true =>
-        have hk : kw "CHARSET UTF-8 " = atom (str "CHARSET") ++ (sp ++ (atom (str "UTF-8") ++ sp)) := by decide
-        simp only [afterOpts, hcs, if_true, hk, List.append_assoc] at h
-        rw [span_atom _ _ _ (by decide) (stops_sp _ (by decide) _)] at h
-        cases h; decide
-    have hrest := pSearchRest_w uid {} cs c hok hd
-    simp only [one, pSearch, bind, Except.bind, pSP_sp _ (notEol_afterOpts cs c crlf)]
-    rw [hnoret _ _ rfl]
-    simp only [Bool.false_eq_true, if_false, hrest, hsem, hos]
-    simp [pure, Except.pure]
-  · obtain ⟨a, as, hcons⟩ : ∃ a as, rOpts os = a :: as := by
-      cases h : rOpts os with
-      | nil => exact absurd h hnil
-      | cons a as => exact ⟨a, as, rfl⟩
-    have hne : ¬ ((rOpts os).map ROpt.wire = []) := by simp [hcons]
-    have hlin : linearise ([Seg.fixed ([.b 84] ++ atom (digits tag) ++ sp)] ++
-        ([Seg.fixed (uidName uid "SEARCH" ++ (if (rOpts os).map ROpt.wire = [] then [] else sp ++ kw "RETURN" ++ sp ++ [.b 40]))] ++
-         (if (rOpts os).map ROpt.wire = [] then [] else [.anyOrder ((rOpts os).map ROpt.wire), .fixed [.b 41]]) ++
-         [.fixed (sp ++ (if cs then kw "CHARSET UTF-8 " else []) ++ critWire c)]) ++ [Seg.fixed crlf]) =
-        tagW tag ++ (uidName uid "SEARCH" ++ (sp ++ (atom (str "RETURN") ++ (sp ++ (wList ((rOpts os).map ROpt.wire) ++ (sp ++ (afterOpts cs c ++ crlf))))))) := by
-      simp [linearise, Seg.lin, tagW, hne, afterOpts, wList, kw, List.append_assoc]
-    simp only [List.map_cons, List.map_nil, hlin, parseCmds, bind, Except.bind]
-    rw [parse_uidName cfg tag uid "SEARCH" _ (isName_kw "SEARCH") (by decide) (stops_sp_atom _), dispatch_search]
-    have hsp : span isSearchAtomChar (atom (str "RETURN") ++ (sp ++ (wList ((rOpts os).map ROpt.wire) ++ (sp ++ (afterOpts cs c ++ crlf))))) =
-        (str "RETURN", sp ++ (wList ((rOpts os).map ROpt.wire) ++ (sp ++ (afterOpts cs c ++ crlf)))) :=
-      span_atom _ _ _ (by decide) (stops_sp _ (by decide) _)
-    have hl := pList_wList rOptSpec (rOpts os) (fun _ _ => trivial) {} (sp ++ (afterOpts cs c ++ crlf))
-    rw [foldl_rOpts] at hl
-    have hrest := pSearchRest_w uid os cs c hok hd
-    have hu : upper (str "RETURN") = str "RETURN" := by decide
-    simp (decide := true) only [one, pSearch, bind, Except.bind, pSP_sp _ (notEol_atom (str "RETURN") _ (by decide) (by decide)), hsp, hu,
-      if_true, pSP_sp _ (notEol_wList _ _), hl, pSP_sp _ (notEol_afterOpts cs c crlf), hrest, hsem]
-    simp [pure, Except.pure]
-
-
-/-- SEARCH: the criteria tree (`CritOK`), any return options, either numbering -/
-theorem search_fidelity (cfg : Cfg) (tag : Nat) (uid : Bool) (c : Crit) (o : Option SearchOpts) (hok : CritOK c)
-    (hd : depth c < maxListDepth) :
-    roundTrip {} cfg tag (.search uid c o) = .calls (sem cfg (.search uid c o)) := by
-  cases o with
-  | none =>
-    apply search_fidelity_aux cfg tag uid c none {} (cfg.needCharset && !critIsAscii c) hok hd
-    · simp only [wBody, wCrit_ok c hok, bind, Except.bind, pure, Except.pure, Bool.false_eq_true, if_false]
-      rfl
-    · rfl
-  | some o' =>
-    apply search_fidelity_aux cfg tag uid c (some o') o' (cfg.needCharset && !critIsAscii c) hok hd
-    · simp only [wBody, wCrit_ok c hok, bind, Except.bind, pure, Except.pure, Bool.false_eq_true, if_false, searchReturnItems_eq]
-    · rfl
 
 end GoImap.CmdLemmas
